@@ -74,8 +74,13 @@ var CPUSeconds = 20
 // prlimit-style wrapper: ulimit through sh, so that the limit is CPU time
 // measured by the kernel, not wall time.
 func (e *Env) Run(dir string, extraEnv []string, args ...string) Result {
+	return e.RunCPU(dir, extraEnv, CPUSeconds, args...)
+}
+
+// RunCPU is Run with an explicit CPU limit (seconds).
+func (e *Env) RunCPU(dir string, extraEnv []string, cpu int, args ...string) Result {
 	var sb strings.Builder
-	fmt.Fprintf(&sb, "ulimit -t %d; ulimit -v %d; exec \"$0\" \"$@\"", CPUSeconds, 6*1024*1024)
+	fmt.Fprintf(&sb, "ulimit -t %d; ulimit -v %d; exec \"$0\" \"$@\"", cpu, 6*1024*1024)
 	ctx, cancel := context.WithTimeout(context.Background(), 10*time.Minute)
 	defer cancel()
 	cmd := exec.CommandContext(ctx, "/bin/sh", append([]string{"-c", sb.String(), e.Gocc}, args...)...)
